@@ -1,0 +1,16 @@
+//go:build verif
+
+package mastership
+
+import (
+	"github.com/onosproject/onos-config/pkg/store/topo"
+	"github.com/onosproject/onos-config/pkg/store/v2/configuration"
+)
+
+func NewReconcilerForVerif(topo topo.Store, configurations configuration.Store) *Reconciler {
+	return &Reconciler{topo: topo, configurations: configurations}
+}
+func NewTopoWatcherForVerif(topo topo.Store) *TopoWatcher { return &TopoWatcher{topo: topo} }
+func NewConfigurationStoreWatcherForVerif(configurations configuration.Store) *ConfigurationStoreWatcher {
+	return &ConfigurationStoreWatcher{configurations: configurations}
+}
